@@ -16,7 +16,8 @@ anything else than these rewrites:
   N4  `if`: what follows an if/elif/else with an arm that leaves belongs to the one arm that stays (guard clauses); a jump directly
       behind an if ends every arm that stays; `if a: X elif b: X` is `if a or b: X`; `P if c else Q` as a test is `(c and P) or (not c and Q)`; nested ifs without else are one
       conjunction; of `if c: A else: B` and `if not c: B else: A` the one whose test has fewer negations (then the smaller text);
-  N5  collector loops: `for t in S: [if c:] L.append(e)` is `L.extend(e for t in S if c)`; `L = []` directly followed by it is
+  N5  `for x in (a, b): BODY` over a literal of names is BODY[a]; BODY[b]; `if c: del X[k] else: del Y[k]` is `del (X if c else Y)[k]`;
+      collector loops: `for t in S: [if c:] L.append(e)` is `L.extend(e for t in S if c)`; `L = []` directly followed by it is
       `L = [e for ...]`; the dict analogue; `for t in S: if c: return True` + `return False` is `return any(c for t in S)` (dual: all);
       `for k, v in d.items()` with k unused is `for v in d.values()`;
   N6  locals bound once are substituted where sa/canon.inline_new_locals allows it (nothing between binding and use can change
@@ -28,6 +29,8 @@ anything else than these rewrites:
       straight-line procedure) is substituted at its calls;
   N6d a pure search with a found-flag (`for..: for..: if c: <acts>; flag = True; break` / `if flag: break`): the acts are done right
       behind the loops under `if flag:`; `if t: A` directly followed by `if t: B else: C` is `if t: A; B else: C` (t a local name);
+  N6e `a, b = x, y` (names) is `a = x; b = y`; `list(sorted(..))` is `sorted(..)`; `attrgetter('a', 'b')` is `lambda v: (v.a, v.b)`;
+      `v.reverse(); return v` for a list built here and held by nobody else is `return v[::-1]`; `sum(len(x) for x in S) == 0` is `not any(S)`;
   N7  `x = x op e` is `x op= e`; `v = <constant or empty container>` for a local v sinks past statements that do not mention v
       and into both arms of an if/else;
   N8  bound names (locals, comprehension variables, lambda parameters) are numbered in order of appearance.
@@ -477,12 +480,33 @@ class _Tests(ast.NodeTransformer):
 
     def visit_Compare(self, node):
         self.generic_visit(node)
+        # sum(len(x) for x in S) == 0  is  not any(S)   (non-emptiness is truthiness, as for `len(x) > 0` in tests)
+        if len(node.ops) == 1 and isinstance(node.ops[0], (ast.Eq, ast.NotEq, ast.Gt)) and isinstance(node.comparators[0], ast.Constant) and node.comparators[0].value == 0 \
+                and isinstance(node.left, ast.Call) and isinstance(node.left.func, ast.Name) and node.left.func.id == "sum" and len(node.left.args) == 1 \
+                and isinstance(node.left.args[0], (ast.GeneratorExp, ast.ListComp)):
+            g = node.left.args[0]
+            if len(g.generators) == 1 and not g.generators[0].ifs and isinstance(g.generators[0].target, ast.Name) and isinstance(g.elt, ast.Call) \
+                    and isinstance(g.elt.func, ast.Name) and g.elt.func.id == "len" and len(g.elt.args) == 1 and isinstance(g.elt.args[0], ast.Name) \
+                    and g.elt.args[0].id == g.generators[0].target.id:
+                anyc = ast.Call(func=ast.Name(id="any", ctx=ast.Load()), args=[g.generators[0].iter], keywords=[])
+                return _not(anyc) if isinstance(node.ops[0], ast.Eq) else anyc
         return nnf(node, False, False)
 
     def visit_Call(self, node):
         self.generic_visit(node)
         if isinstance(node.func, ast.Name) and node.func.id in ("all", "any"):
             return nnf(node, False, False)
+        # list(sorted(...)) is sorted(...): sorted already returns a new list
+        if isinstance(node.func, ast.Name) and node.func.id == "list" and len(node.args) == 1 and not node.keywords and isinstance(node.args[0], ast.Call) \
+                and isinstance(node.args[0].func, ast.Name) and node.args[0].func.id == "sorted":
+            return node.args[0]
+        # attrgetter('a', 'b') is lambda x: (x.a, x.b); attrgetter('a') is lambda x: x.a
+        if isinstance(node.func, ast.Name) and node.func.id == "attrgetter" and node.args and not node.keywords \
+                and all(isinstance(a, ast.Constant) and isinstance(a.value, str) and a.value.isidentifier() for a in node.args):
+            var = ast.Name(id="_ag", ctx=ast.Load())
+            elts = [ast.Attribute(value=ast.Name(id="_ag", ctx=ast.Load()), attr=a.value, ctx=ast.Load()) for a in node.args]
+            body = elts[0] if len(elts) == 1 else ast.Tuple(elts=elts, ctx=ast.Load())
+            return ast.Lambda(args=ast.arguments(posonlyargs=[], args=[ast.arg(arg="_ag")], kwonlyargs=[], kw_defaults=[], defaults=[]), body=body)
         # filter(lambda v: c, xs) / map(lambda v: e, xs) consumed by list()/len(list())/set()/sum()/...: the comprehension
         if isinstance(node.func, ast.Name) and node.func.id in ("list", "set", "tuple", "sum", "sorted", "min", "max", "frozenset") and len(node.args) >= 1 \
                 and isinstance(node.args[0], ast.Call) and isinstance(node.args[0].func, ast.Name) and node.args[0].func.id in ("filter", "map") \
@@ -666,6 +690,16 @@ def _ifs(fn) -> bool:
                         changed = True
                         i += 1
                         continue
+                # both arms `del X[k]` with the same key: one `del (X if c else Y)[k]`
+                if len(s.body) == 1 and len(s.orelse) == 1 and isinstance(s.body[0], ast.Delete) and isinstance(s.orelse[0], ast.Delete) \
+                        and len(s.body[0].targets) == 1 and len(s.orelse[0].targets) == 1 \
+                        and isinstance(s.body[0].targets[0], ast.Subscript) and isinstance(s.orelse[0].targets[0], ast.Subscript) \
+                        and _u(s.body[0].targets[0].slice) == _u(s.orelse[0].targets[0].slice):
+                    x, y = s.body[0].targets[0], s.orelse[0].targets[0]
+                    b[i] = ast.copy_location(ast.Delete(targets=[ast.Subscript(value=_ifexp(s.test, x.value, y.value), slice=x.slice, ctx=ast.Del())]), s)
+                    changed = True
+                    i += 1
+                    continue
                 # orientation of if/else
                 if s.orelse:
                     t, n = s.test, nnf(s.test, True, True)
@@ -760,6 +794,64 @@ def _merge_same_test_ifs(fn) -> bool:
                 changed = True
                 continue
             i += 1
+    return changed
+
+
+def _split_tuple_assignments(fn) -> bool:
+    """`a, b = x, y` with plain names on the right that are not among the targets is `a = x; b = y`."""
+    changed = False
+    for owner, f, b in list(_blocks(fn)):
+        i = 0
+        while i < len(b):
+            s = b[i]
+            if isinstance(s, ast.Assign) and len(s.targets) == 1 and isinstance(s.targets[0], ast.Tuple) and isinstance(s.value, ast.Tuple) \
+                    and len(s.targets[0].elts) == len(s.value.elts) and all(isinstance(t, ast.Name) for t in s.targets[0].elts) \
+                    and all(isinstance(v, (ast.Name, ast.Constant)) for v in s.value.elts):
+                tn = {t.id for t in s.targets[0].elts}
+                if not any(isinstance(v, ast.Name) and v.id in tn for v in s.value.elts) and len(tn) == len(s.targets[0].elts):
+                    b[i:i + 1] = [ast.copy_location(ast.Assign(targets=[ast.Name(id=t.id, ctx=ast.Store())], value=v), s)
+                                  for t, v in zip(s.targets[0].elts, s.value.elts)]
+                    ast.fix_missing_locations(fn)
+                    changed = True
+                    continue
+            i += 1
+    return changed
+
+
+def _reverse_then_return(fn) -> bool:
+    """`v.reverse(); return v` for a list built in the function (bound once to a list display, only appended to / read) is
+    `return v[::-1]`: nobody else holds v."""
+    changed = False
+    for owner, f, b in list(_blocks(fn)):
+        for i in range(len(b) - 1):
+            s, r = b[i], b[i + 1]
+            if isinstance(s, ast.Expr) and isinstance(s.value, ast.Call) and isinstance(s.value.func, ast.Attribute) and s.value.func.attr == "reverse" \
+                    and not s.value.args and isinstance(s.value.func.value, ast.Name) and isinstance(r, ast.Return) and isinstance(r.value, ast.Name) \
+                    and r.value.id == s.value.func.value.id:
+                v = r.value.id
+                stores = [n for n in ast.walk(fn) if isinstance(n, ast.Name) and n.id == v and isinstance(n.ctx, ast.Store)]
+                defs = [a for a in ast.walk(fn) if isinstance(a, ast.Assign) and any(isinstance(t, ast.Name) and t.id == v for t in a.targets)]
+                if len(stores) != 1 or len(defs) != 1 or not isinstance(defs[0].value, ast.List):
+                    continue
+                parents = {}
+                for p in ast.walk(fn):
+                    for ch in ast.iter_child_nodes(p):
+                        parents[id(ch)] = p
+                escapes = False
+                for n in ast.walk(fn):
+                    if isinstance(n, ast.Name) and n.id == v and isinstance(n.ctx, ast.Load) and n is not r.value and n is not s.value.func.value:
+                        pn = parents.get(id(n))
+                        ok_use = (isinstance(pn, ast.Attribute) and pn.attr in ("append", "insert", "extend") and isinstance(parents.get(id(pn)), ast.Call)) \
+                            or isinstance(pn, (ast.Subscript, ast.comprehension, ast.For)) or (isinstance(pn, ast.Call) and isinstance(pn.func, ast.Name) and pn.func.id == "len")
+                        if not ok_use:
+                            escapes = True
+                if escapes:
+                    continue
+                r.value = ast.Subscript(value=ast.Name(id=v, ctx=ast.Load()), slice=ast.Slice(lower=None, upper=None, step=ast.UnaryOp(op=ast.USub(), operand=ast.Constant(value=1))), ctx=ast.Load())
+                b.pop(i)
+                ast.fix_missing_locations(fn)
+                changed = True
+                break
     return changed
 
 
@@ -885,8 +977,16 @@ def _destructure(loop: ast.For, after: Sequence[ast.stmt]) -> bool:
     if len(slots) != 1:
         return False
     uses = [n for x in loop.body[1:] + list(loop.orelse) + list(after) for n in ast.walk(x) if isinstance(n, ast.Name) and n.id == k]
+    names = [e.id for e in a.targets[0].elts]
     if uses:
-        return False
+        # the key is also read (e.g. as a dict key): an equal tuple of the unpacked names, provided none of them is re-bound in the loop
+        # and the key is not read after the loop
+        rebound = any(isinstance(n, ast.Name) and n.id in names + [k] and isinstance(n.ctx, (ast.Store, ast.Del)) for x in loop.body[1:] for n in ast.walk(x))
+        after_use = any(isinstance(n, ast.Name) and n.id == k for x in list(loop.orelse) + list(after) for n in ast.walk(x))
+        if rebound or after_use or not all(isinstance(n.ctx, ast.Load) for n in uses):
+            return False
+        for n in uses:
+            canon._replace(loop, n, ast.Tuple(elts=[ast.Name(id=e, ctx=ast.Load()) for e in names], ctx=ast.Load()))
     new_t = ast.Tuple(elts=[ast.Name(id=e.id, ctx=ast.Store()) for e in a.targets[0].elts], ctx=ast.Store())
     if loop.target is slots[0]:
         loop.target = new_t
@@ -917,13 +1017,12 @@ def _split_loop_targets(fn) -> bool:
         tn = [t for t in ast.walk(loop.target) if isinstance(t, ast.Name)]
         for t in tn:
             nm = t.id
-            if len(stores.get(nm, [])) < 2 or outer_loops.get(id(loop)):
+            if len(stores.get(nm, [])) < 2:
                 continue
             inside = {id(x) for x in ast.walk(loop)}
             if any(id(st) in inside and st is not t for st in stores[nm]):
                 continue
-            reads_out = [x for x in ast.walk(fn) if isinstance(x, ast.Name) and x.id == nm and isinstance(x.ctx, ast.Load) and id(x) not in inside]
-            if any(pos[id(x)] > last[id(loop)] for x in reads_out):
+            if not canon.loop_binding_is_private(fn, loop, nm):
                 continue
             new = f"{nm}__l{k}"
             k += 1
@@ -935,8 +1034,48 @@ def _split_loop_targets(fn) -> bool:
     return changed
 
 
-def _loops(fn) -> bool:
+class _SubstName(ast.NodeTransformer):
+    def __init__(self, name, expr):
+        self.name, self.expr = name, expr
+
+    def visit_Name(self, node):
+        if node.id == self.name and isinstance(node.ctx, ast.Load):
+            return ast.copy_location(ast.parse(ast.unparse(self.expr), mode="eval").body, node)
+        return node
+
+
+def _unroll_literal_loops(fn) -> bool:
+    """`for x in (a, b): BODY` over a literal tuple/list of at most three names or attribute chains is BODY[a]; BODY[b] when the body has
+    no break/continue of that loop, does not bind x, and x is not read afterwards."""
     changed = False
+    for owner, f, b in list(_blocks(fn)):
+        i = 0
+        while i < len(b):
+            s = b[i]
+            if isinstance(s, ast.For) and not s.orelse and isinstance(s.target, ast.Name) and isinstance(s.iter, (ast.Tuple, ast.List)) \
+                    and 2 <= len(s.iter.elts) <= 3 and all(canon._simple(e) for e in s.iter.elts):
+                x = s.target.id
+                jumps = [n for st in s.body for n in ast.walk(st) if isinstance(n, (ast.Break, ast.Continue))]
+                inner_loops = [n for st in s.body for n in ast.walk(st) if isinstance(n, (ast.For, ast.While))]
+                own_jump = any(not any(any(j is y for y in ast.walk(l)) for l in inner_loops) for j in jumps)
+                rebinds = any(isinstance(n, ast.Name) and n.id == x and isinstance(n.ctx, (ast.Store, ast.Del)) for st in s.body for n in ast.walk(st))
+                later = any(isinstance(n, ast.Name) and n.id == x for st in b[i + 1:] for n in ast.walk(st))
+                other = [n for n in ast.walk(fn) if isinstance(n, ast.Name) and n.id == x and not any(n is y for y in ast.walk(s))]
+                if not own_jump and not rebinds and not later and not other:
+                    new_stmts = []
+                    for e in s.iter.elts:
+                        for st in s.body:
+                            new_stmts.append(_SubstName(x, e).visit(_clone_stmt(st)))
+                    b[i:i + 1] = new_stmts
+                    ast.fix_missing_locations(fn)
+                    changed = True
+                    continue
+            i += 1
+    return changed
+
+
+def _loops(fn) -> bool:
+    changed = _unroll_literal_loops(fn)
     for owner, f, b in list(_blocks(fn)):
         i = 0
         while i < len(b):
@@ -1208,7 +1347,10 @@ def nf_text(fn: ast.AST, sigs: Optional[Dict[str, List[str]]] = None, inline: bo
         changed |= _conditional_overwrite(f)
         changed |= _hoist_hit_body(f)
         changed |= _merge_same_test_ifs(f)
+        changed |= _split_tuple_assignments(f)
+        changed |= _reverse_then_return(f)
         ast.fix_missing_locations(f)
+        changed |= bool(canon.drop_self_assignments(f))
         changed |= bool(canon.drop_redundant_rebindings(f))
         changed |= _split_loop_targets(f)
         changed |= _sink_constants(f)
